@@ -509,15 +509,13 @@ static NOINSTR void encode_all(struct ctx *c, asn_TYPE_descriptor_t *td, const v
     lstr(&c->log, ">");
 }
 
-/* oer_decode() calls td->op->oer_decoder without looking at it: a type without an OER decoder (every SET) makes asn_decode(ATS_*_OER)
- * and oer_decode() jump to address 0 in the unchanged library (finding C19-oer-decode-null-decoder; probed once per type in `ro` mode,
- * where the crash is recovered, and kept out of the battery otherwise) */
-static NOINSTR int can_decode(const asn_TYPE_descriptor_t *td, int s) { return !(SYN[s].oer && !td->op->oer_decoder); }
+/* A type without an OER codec (every SET, ANY) is part of the battery like any other: oer_decode()/oer_encode() and
+ * asn_decode(ATS_*_OER) answer RC_FAIL / -1 for it (they called the NULL slot until the repair of C19-oer-entry-null-codec;
+ * the `ro` mode additionally probes both entry points once per such type in a recovery scope of their own). */
 
 static NOINSTR void decode_and_use(struct ctx *c, asn_TYPE_descriptor_t *td, int s, const uint8_t *b, size_t n, const void *orig, const char *tag, int reenc) {
     void *st2 = 0;
     asn_dec_rval_t rv;
-    if(!can_decode(td, s)) return;
     OP(c, "asn_decode");
     rv = asn_decode(0, SYN[s].dec, td, &st2, b, n);
     lstr(&c->log, " "); lstr(&c->log, tag); lnum(&c->log, "dec", rv.code); lnum(&c->log, "used", (long)rv.consumed);
@@ -676,7 +674,7 @@ static NOINSTR void one_round(struct ctx *c, int ti) {
                 free(fo.p);
             }
         }
-        if(SYN[s].dec != ATS_INVALID && out.n < 100000 && can_decode(td, s)) {
+        if(SYN[s].dec != ATS_INVALID && out.n < 100000) {
             int pk;
             decode_and_use(c, td, s, out.p, out.n, st, "rt", 0);
             if(s == 0) {
@@ -864,18 +862,14 @@ static NOINSTR void one_round(struct ctx *c, int ti) {
 #ifndef ASN_DISABLE_OER_SUPPORT
         if(!SKIP_NOCODEC || !HAS_NOOER[ti]) {
             out.n = 0;
-            if(td->op->oer_encoder) {   /* oer_encode() does not look at the slot either (same finding as can_decode) */
-                OP(c, "oer_encode");
-                er = oer_encode(td, st, cb_buf, &out); lnum(L, "oer", (long)er.encoded);
-            }
+            OP(c, "oer_encode");
+            er = oer_encode(td, st, cb_buf, &out); lnum(L, "oer", (long)er.encoded);
             OP(c, "oer_encode_to_buffer");
             er = oer_encode_to_buffer(td, 0, st, fixed, sizeof fixed); lnum(L, "oerb", (long)er.encoded);
-            if(td->op->oer_decoder) {
-                OP(c, "oer_decode");
-                st2 = 0; rv = oer_decode(0, td, &st2, out.p, out.n); lnum(L, "oerd", rv.code);
-                OP(c, "free");
-                ASN_STRUCT_FREE(*td, st2);
-            }
+            OP(c, "oer_decode");
+            st2 = 0; rv = oer_decode(0, td, &st2, out.p, out.n); lnum(L, "oerd", rv.code);
+            OP(c, "free");
+            ASN_STRUCT_FREE(*td, st2);
         }
 #endif
         free(out.p);
@@ -1377,7 +1371,8 @@ static NOINSTR int main_ro(uint64_t seed, int iters, int protect) {
             }
             recover_armed = 0;
 #ifndef ASN_DISABLE_OER_SUPPORT
-            /* known finding probes (see can_decode): the OER entry points on a type without an OER codec; each in its own recovery scope */
+            /* the OER entry points on a type without an OER codec, each in its own recovery scope: they must answer (RC_FAIL / -1),
+             * a signal here is reported by the check as crash:oer-null-codec (the repaired C19-oer-entry-null-codec coming back) */
             if(i >= 0 && it == 0 && !NOT_PDU[i] && !TY[i]->op->oer_decoder) {
                 recover_armed = 1;
                 if((sig = sigsetjmp(RECOVER, 1)) == 0) {
